@@ -530,7 +530,15 @@ func (env *SpecEnv) quant(x *SQuant) Val {
 	}
 	body := c.boolTerm(x.Body)
 	var pats string
+	noIx := false
 	for _, tr := range x.Triggers {
+		// {noix}: only the written triggers, no index-witness pattern
+		if len(tr) == 1 {
+			if id, ok := tr[0].(*SIdent); ok && id.Name == "noix" {
+				noIx = true
+				continue
+			}
+		}
 		var ts []string
 		for _, t := range tr {
 			ts = append(ts, c.eval(t).T)
@@ -551,7 +559,7 @@ func (env *SpecEnv) quant(x *SQuant) Val {
 		}
 		ixs = append(ixs, "("+ex.ixFn()+" "+b.name+")")
 	}
-	if allInt && len(bvs) <= 2 {
+	if allInt && len(bvs) <= 2 && !noIx {
 		pats += " :pattern (" + strings.Join(ixs, " ") + ")"
 	}
 	if pats != "" {
@@ -683,6 +691,17 @@ func (env *SpecEnv) call(x *SCall) Val {
 				hn := sym(id.Name)
 				ex.w.declFun(hn, []*Sort{sInt}, sBool)
 				return Val{T: "(" + hn + " " + v.T + ")", S: sBool}
+			case "touch":
+				// instantiation hint for any term: an uninterpreted predicate that occurs only
+				// positively (assumed, or in the hypothesis of a goal), so that the ground term e is
+				// present for E-matching; simply true where it would have to be proved
+				v := env.nopol().eval(x.Args[0])
+				if env.pol > 0 {
+					return Val{T: "true", S: sBool}
+				}
+				hn := sym("touch_" + sanitizeFile(strings.Trim(v.S.Name, "|")))
+				ex.w.declFun(hn, []*Sort{v.S}, sBool)
+				return Val{T: "(" + hn + " " + v.T + ")", S: sBool}
 			case "row":
 				v := env.eval(x.Args[0])
 				if v.S.Kind != KSlice {
@@ -806,6 +825,14 @@ func (env *SpecEnv) call(x *SCall) Val {
 	var args []Val
 	for _, a := range x.Args {
 		args = append(args, env.eval(a))
+	}
+	if len(args) != sig.Params().Len() {
+		env.fail("function value %s applied to %d arguments, takes %d", specString(x.Fn), len(args), sig.Params().Len())
+	}
+	for i, a := range args {
+		if ps := ex.w.sortOf(sig.Params().At(i).Type()); ps.Name != a.S.Name {
+			env.fail("function value %s: argument %d has sort %s, want %s", specString(x.Fn), i, a.S.Name, ps.Name)
+		}
 	}
 	rs := ex.applyPure(f, sig, args)
 	if len(rs) != 1 {
